@@ -146,6 +146,7 @@ pub fn run_simk(case: &SimkCase) -> Outcome {
     let specs = case.reads.clone();
     let finite = case.finite;
 
+    ip::IN_LIB.store(true, std::sync::atomic::Ordering::SeqCst);
     let res = std::panic::catch_unwind(std::panic::AssertUnwindSafe(|| {
         let [f0, f1, f2] = std::mem::take(&mut files);
         let mut comm = Some(with_popen(|p| {
@@ -283,6 +284,7 @@ pub fn run_simk(case: &SimkCase) -> Outcome {
         }
         drop(comm);
     }));
+    ip::IN_LIB.store(false, std::sync::atomic::Ordering::SeqCst);
     // whatever happened, release everything before the simulator goes away
     drop(files);
     with_popen(|p| {
